@@ -95,6 +95,9 @@ impl TwoFloat {
     /// assert!((b - c).abs() < 1e-10);
     /// ```
     pub fn asinh(self) -> Self {
+        if self.is_sign_negative() {
+            return -(-self).asinh();
+        }
         (self + (self * self + 1.0).sqrt()).ln()
     }
 
